@@ -388,7 +388,7 @@ func c16TreeBody(ch *engine.Chooser) engine.Result {
 	var res engine.Result
 	s := engine.Pick(ch, "stream", c16TreeStreams)
 	size := engine.Pick(ch, "bufio-size", c16BufSizes[:])
-	sr := &ref.ScriptedReader{Data: s, Ch: ch, Align: size}
+	sr := &ref.ScriptedReader{Data: s, Ch: ch, Align: size, Empties: true}
 	br := bufio.NewReaderSize(sr, size)
 	at, falseSyncs, cut := c16Scan(s)
 	cls := c16Class(at, falseSyncs, cut)
@@ -475,12 +475,12 @@ func init() {
 			},
 			&engine.Tree{
 				Name: "sync-scripted-tree",
-				Rule: "10 hand-picked streams (the section-9 probe, runs of false syncs, reserved afc/PID headers straddling 16/17/64-byte buffer ends, header cut by end of stream, empty) x bufio size x scripted reader: at every Read the chooser picks the amount (all, 1, half, to the next buffer-size boundary, +1, -1) and whether EOF comes with the last data; deviations <= 3 (thorough 4) counting the stream and size choices; same oracle; non-trivial = execution with at least one deviation",
+				Rule: "10 hand-picked streams (the section-9 probe, runs of false syncs, reserved afc/PID headers straddling 16/17/64-byte buffer ends, header cut by end of stream, empty) x bufio size x scripted reader: at every Read the chooser picks an optional empty answer (0,nil) first (at most two in a row), the amount (all, 1, half, to the next buffer-size boundary, +1, -1) and whether EOF comes with the last data; deviations <= 5 (thorough 7) counting the stream and size choices; same oracle; non-trivial = execution with at least one deviation",
 				Bound: func(r *engine.Run) int {
 					if r.Thorough() {
-						return 4
+						return 7
 					}
-					return 3
+					return 5
 				},
 				Body: c16TreeBody,
 			},
